@@ -520,7 +520,7 @@ def cross_process(out, tier, seed):
     """whole-save scenarios in separate interpreters with different hash seeds / address layouts"""
     script = os.path.join(os.path.dirname(os.path.abspath(__file__)), "c14_scenario.py")
     nseeds = 6 if tier == "quick" else 16
-    for scen in list(range(3 if tier == "quick" else 8)) + [100, 101]:
+    for scen in list(range(3 if tier == "quick" else 8)) + [100, 101, 102]:
         results = {}
         for hs in range(nseeds):
             env = dict(os.environ)
